@@ -3855,6 +3855,11 @@ func (a *Association) popPendingDataChunksToSend( //nolint:cyclop,gocognit
 				addBytes := int(commonHeaderSize) + chunkBytes
 
 				if addBytes <= int(a.MTU()) && a.tlrAllowSendLocked(budgetScaled, consumed, addBytes) {
+					// The probe uses up whatever is left of the peer's window: without
+					// this, a probe larger than a small non-zero rwnd leaves rwnd
+					// untouched and later gathers keep sending new data beyond the
+					// advertised window until the next SACK arrives.
+					a.setRWND(a.RWND() - min32(a.RWND(), uint32(len(c.userData)))) //nolint:gosec // G115
 					a.movePendingDataChunkToInflightQueue(c)
 					chunks = append(chunks, c)
 				}
